@@ -111,6 +111,14 @@ func descend(k int, kind string) int {
 	return 0
 }
 
+//go:noinline
+func descendLong(k int, msg string) int {
+	if k > 0 {
+		return descendLong(k-1, msg) + 1
+	}
+	panic(msg)
+}
+
 func childMain(kind string) {
 	f, err := os.Create(os.Getenv("VH_CRASH_OUT"))
 	if err != nil {
@@ -126,6 +134,18 @@ func childMain(kind string) {
 	go func() { select {} }()
 	depth := 2
 	switch kind {
+	case "longmsg": // a 200 KiB panic message before the goroutine stacks
+		defer recordStack()
+		sink = descendLong(2, strings.Repeat("secret-user-data ", 200*1024/17))
+		return
+	case "longnames": // 20 frames of a function with a 300-byte name: 16 frames exceed the name limit
+		defer recordStack()
+		sink = longDispatch([]int{4, 20}, func() { panic("x") })
+		return
+	case "longnames-mixed":
+		defer recordStack()
+		sink = longDispatch([]int{3, 6, 1, 2, 4, 5, 0, 3}, func() { sink = crashNil(nil) })
+		return
 	case "deep":
 		depth = 300
 	case "deep16":
